@@ -35,9 +35,14 @@ def run(rep, ix, tier):
     check_budget(rep, ix, pm)
     check_same_walk(rep, ix, pm)
     check_seeks(rep, ix, pm)
+    check_advance(rep, ix, pm)
     check_index_scan(rep, ix, pm)
     check_forward(rep, ix)
     check_seek_targets(rep, ix, pm)
+    # every index entry and every fetched record is built by LogicalRecordPosition: its guards must admit conformant layouts
+    from . import C01
+    C01.check_envelope(rep, ix, pm, only=('LogicalRecordPosition.__init__',))
+    rep.floor('R-C01-ENVELOPE', 8)
     rep.floor('R-C02-TARGET', 10)
     rep.floor('R-C02-BUDGET', 5)
     rep.floor('R-C02-SAME', 8)
@@ -218,6 +223,30 @@ def check_seeks(rep, ix, pm):
     neg = [t for t, negd, n in common.reject_guards(f)]
     ok = any(show(nf(t)) == f'(cmp Lt {f.args.args[2].arg} 0)' for t in neg)
     rep.ob('R-C02-SEEK', site, 'negative offsets are refused', ok, found=str([ast.unparse(t) for t in neg]), node=f, module=pm)
+
+
+def check_advance(rep, ix, pm):
+    """the step between segments: the file is positioned at the header's next_position, unconditionally, before the next
+    header is parsed (a partial fetch leaves the file inside the payload, a trailer leaves it before the boundary)"""
+    f = ix.get_func(M, 'FileRead._seek_and_read_next_logical_record_segment_header')
+    site = f'{M}:FileRead._seek_and_read_next_logical_record_segment_header'
+    g = cfgmod.CFG(f)
+    dom = g.dominators()
+    reads = [s for s in g.stmts() if any(attr_chain(c.func) == 'self.logical_record_segment_header.read' for c in cfgmod.calls_at(s))]
+    seeks = []
+    for s in g.stmts():
+        for c in cfgmod.calls_at(s):
+            if attr_chain(c.func) == 'self.file.seek' and len(c.args) == 1 and not c.keywords:
+                tgt = ast.unparse(defuse.inline_locals(f, c.args[0], depth=3)).replace(' ', '')
+                if tgt == 'self.logical_record_segment_header.next_position':
+                    seeks.append(s)
+    ok = len(reads) == 1 and any(sk in dom.get(reads[0], ()) for sk in seeks)
+    rep.ob('R-C02-SEEK', site, 'seek(header.next_position) dominates the parse of the next segment header', ok,
+           found=f'{len(seeks)} seek(s) to next_position, {len(reads)} header read(s)',
+           required='the file position does not depend on how much of the segment the caller consumed', node=f, module=pm)
+    vr = [s for s in g.stmts() if any(attr_chain(c.func) == 'self.visible_record.read_next' for c in cfgmod.calls_at(s))]
+    ok = bool(vr) and all(any(sk in dom.get(v, ()) for sk in seeks) for v in vr)
+    rep.ob('R-C02-SEEK', site, 'the visible record is advanced only after that seek', ok, found=f'{len(vr)} read_next call(s)', node=f, module=pm)
 
 
 def _fresh_copy(func, y):
